@@ -85,13 +85,14 @@ class ICMPPacket(BaseModel):
     icmp_code: int = 0
     "ICMP Code."
     identifier: int
-    "ICMP identifier (16 bits randomly generated)."
+    "ICMP identifier (16 bits; when not given, generated randomly with five digits so that every frame has the same size)."
     sequence: int = 0
     "ICMP message sequence number."
 
     def __init__(self, **kwargs):
         if kwargs.get("identifier") is None:
-            kwargs["identifier"] = secrets.randbits(16)
+            # five decimal digits (10000..65535): the text width of the identifier inside Frame.size does not vary
+            kwargs["identifier"] = 10000 + secrets.randbelow(55536)
         super().__init__(**kwargs)
 
     @field_validator("icmp_code")  # noqa
